@@ -313,6 +313,8 @@ def safe_line_starts(text):
             prev = lines[idx - 1] if idx else None
             if idx == 0:
                 tag = "top"
+            elif line.startswith(">>") or line.startswith("="):
+                tag = "between-blocks"
             elif prev.strip() == "" or prev.startswith(">>") or prev.startswith("=") or prev.startswith("--"):
                 tag = "after-section" if prev.startswith("=") else "between-blocks"
             elif line.strip() == "":
@@ -321,6 +323,7 @@ def safe_line_starts(text):
                 tag = "splits-a-step"
             out.append((pos, tag))
         pos += len(line) + 1
+    out.append((len(text), "end"))
     return out
 
 
@@ -346,9 +349,11 @@ def splice(rng, entry, ext, want=None):
         k = want if want in kinds else r.choice(kinds)
         pos, tag = r.choice([s for s in starts if s[1] == k])
         line = entry.b
-        if pos >= len(base) and not base.endswith("\n"):
-            ins = "\n" + line
-            a = blen(base) + 1
+        if tag == "end":
+            ins = line if base.endswith("\n") else "\n" + line
+            a = blen(base) + (0 if base.endswith("\n") else 1)
+            if r.random() < 0.5:
+                ins += "\n"
         else:
             ins = line + "\n"
             a = blen(base[:pos])
@@ -397,33 +402,28 @@ def splice(rng, entry, ext, want=None):
     elif v < 0.55 and btxt[-1] in "})":
         mb_before, mb_after = r.choice(MB), r.choice(MB)
         tags.append("mb-both")
-    out = []
+    sofar = ""
     a = b = None
     pos = 0
     for m in MARK_RE.finditer(text):
-        out.append(text[pos:m.start()])
+        sofar += text[pos:m.start()]
         k = int(m.group(1))
         if k == tgt:
-            sofar = "".join(out)
-            wrap = False
-            if r.random() < 0.3 and sofar.endswith(" ") and not sofar.endswith("\n ") and \
-                    sofar.rstrip(" ")[-1:] not in ("\n", ""):
+            line_before = sofar[sofar.rfind("\n") + 1:]
+            if r.random() < 0.3 and line_before.endswith(" ") and line_before.strip() and \
+                    line_before.rstrip()[-1] not in "]":
                 # the blank before the construct becomes a line wrap inside the step
-                out.append("")
                 sofar = sofar[:-1] + "\n"
-                out = [sofar]
-                wrap = True
-            if wrap:
                 tags.append("wrapped-line")
             lead = pre + mb_before
-            a = blen("".join(out)) + blen(lead)
+            a = blen(sofar) + blen(lead)
             b = a + blen(btxt)
-            out.append(lead + btxt + mb_after + post_def)
+            sofar += lead + btxt + mb_after + post_def
         elif a_at is not None and k == a_at:
-            out.append(entry.a)
+            sofar += entry.a
         pos = m.end()
-    out.append(text[pos:])
-    full = "".join(out)
+    sofar += text[pos:]
+    full = sofar
     base = strip_marks(text)
     if entry.prefix:
         b0 = body_start(full)
